@@ -36,6 +36,7 @@ ProjChoices(sh) ==
     {<<>>}
     \cup {[j \in 1..Len(sh) |-> IF sh[j] > 1 THEN sh[j] - 1 ELSE 1]}
     \cup {[j \in 1..Len(sh) |-> IF sh[j] > 2 THEN 2 ELSE sh[j]]}
+    \cup {sh}                         \* the identity projection, spelled for the axes that remain (their lengths, in their order)
 
 Selected(o) == (IF o.marg # {} THEN {"marg"} ELSE {}) \cup (IF o.proj # <<>> THEN {"proj"} ELSE {})
                \cup (IF o.mask THEN {"mask"} ELSE {}) \cup (IF o.norm THEN {"norm"} ELSE {})
